@@ -83,6 +83,25 @@ def churn_episode(rng):
     return ops
 
 
+def long_window_episode(rng):
+    """an ejection window of hours (unhealthy_timeout: 3600 / 86400 are legal): minutes and hours into it the
+    listing and the metrics still report the backend as ejected, and no request is sent to it"""
+    strat = rng.choice(["round_robin", "least_connections", "weighted_round_robin", "ip_hash"])
+    ops = ["lb new %s 1 2 2 0 0 0 0 0 0 0 0 0" % strat, "lb add a 1 good", "lb add b 1 good"]
+    t = 10**9
+    dur = rng.choice([3600, 86400, 7200]) * 10**9
+    ops += ["lb eject a %d %d" % (t, dur), "lb list", "lb metrics"]
+    rid = 0
+    for at in (5, 9 * 60, 11 * 60, 59 * 60, dur // 10**9 - 1):
+        if at * 10**9 >= dur:
+            continue
+        rid += 1
+        ops += ["lb begin %d %d - - 10.0.0.%d:1" % (rid, t + at * 10**9, rid), "lb end %d %d 200" % (rid, t + at * 10**9 + 1000), "lb list", "lb metrics"]
+    rid += 1
+    ops += ["lb begin %d %d - - 10.0.0.9:1" % (rid, t + dur + 10**9), "lb end %d %d 200" % (rid, t + dur + 10**9 + 1000), "lb list", "lb metrics"]
+    return ops
+
+
 def front_eject_episodes():
     """passive ejection as the real front end applies it (cmd/helios handler, sockets): three failed
     exchanges of any kind in a row — also ones the handler deadline ends before the backend read
@@ -196,7 +215,7 @@ def check(ctx):
     def orc(ep, outs):
         sh_now[0] = 0
         return oracle(ep, outs)
-    episodes = C.load_corpus(ID) + [gen_episode(ctx.rng, ctx.thorough()) for _ in range(nep)] + [churn_episode(ctx.rng)]
+    episodes = C.load_corpus(ID) + [gen_episode(ctx.rng, ctx.thorough()) for _ in range(nep)] + [churn_episode(ctx.rng)] + [long_window_episode(ctx.rng) for _ in range(4)]
     bad = d.check(episodes, oracle=orc, label="health")
     from . import c03
     dfe = C.Differential(ctx, c03.build(ctx), timeout=600, project=c03.project, confirm=2)
